@@ -380,10 +380,10 @@ func checkStreamingGaveUp(c *Ctx, r *Report) {
 	}
 	n := 0
 	for _, f := range c.Funcs {
-		if !strings.HasSuffix(fnPkgPath(f), pkgHandlers) || f.Parent() == nil {
+		if !strings.HasSuffix(fnPkgPath(f), pkgHandlers) {
 			continue
 		}
-		// goroutine body: contains the proxy call with a streamingResponseRecorder as writer
+		// goroutine body (closure or method launched with `go`): contains the proxy call with a streamingResponseRecorder as writer
 		var proxyCall *ssa.Call
 		eachInstr(f, func(in ssa.Instruction) {
 			if call, ok := in.(*ssa.Call); ok && call.Call.IsInvoke() && call.Call.Method.Name() == "ProxyRequestToEndpoints" {
